@@ -541,6 +541,7 @@ def run(ctx):
         "(~0.5,3], the reward handed to the learner is >=0; (A1) the arg-max comparator answers the true order (finite-ordering evaluation); every "
         "Termination::estimate is a literal in [0,1], clamped or a max of members (T1); the variation criterion folds over ALL objectives from `true`, an objective "
         "above the threshold blocks it (V1), and its verdict is reported iff global or exploitation phase (V2).")
+    ctx.explanation += ' The relative fitness distance is |a - b| / max(|a|, |b|) over the same two values (S4, canonical expression); the sample window of the variation criterion is addressed by the generation counter (V3).'
     ctx.not_decided = ("finiteness of the learning state (NaN/inf through overflow or a non-finite reward), mean within the hull of seen rewards, the upper bound 6 of the "
                        "distance reward (relational), weighted sampling, the value of the coefficient of variation and the window bookkeeping.")
     ctx.assumptions += ["a gamma variate is >= 0", "rewards are finite reals", "float rounding, overflow and underflow are outside the sign domain"]
